@@ -195,7 +195,7 @@ async fn history(rep: &mut Report, rng: &mut Rng, plan: &Plan) {
   tokio::time::sleep(Duration::from_millis(plan.delay_ms)).await;
   // ---- injection ----
   let t0 = Instant::now();
-  let watchdog = Duration::from_secs(30);
+  let watchdog = util::scaled(Duration::from_secs(30));
   let mut close_times: Vec<Duration> = vec![];
   let mut closed_eps: Vec<(String, SocketType)> = vec![];
   let result = tokio::time::timeout(watchdog, async {
@@ -225,7 +225,7 @@ async fn history(rep: &mut Report, rng: &mut Rng, plan: &Plan) {
           let t = Instant::now();
           let mut ok = false;
           let mut last = String::new();
-          while t.elapsed() < Duration::from_secs(2) {
+          while t.elapsed() < util::scaled(Duration::from_secs(2)) {
             match nb.bind(ep).await {
               Ok(()) => {
                 ok = true;
@@ -281,20 +281,20 @@ async fn history(rep: &mut Report, rng: &mut Rng, plan: &Plan) {
     }
     Ok(Err(failed)) => {
       rep.violation(format!("rebind_after_close_failed|tr={}", plan.tr.name()), format!("after close() returned, binding the same endpoint again failed for 2 s: {:?} ({})", failed, cfg), json!({"config": cfg, "failed": failed}));
-      let _ = tokio::time::timeout(Duration::from_secs(15), ctx.term()).await;
+      let _ = tokio::time::timeout(util::scaled(Duration::from_secs(15)), ctx.term()).await;
     }
     Ok(Ok(())) => {}
   }
   let la_after = verif::live_actors(&ctx);
-  if total >= Duration::from_secs(9) && total < watchdog {
+  if total >= util::scaled(Duration::from_secs(9)) && total < watchdog {
     rep.violation(format!("term_returned_only_through_internal_timeout|{}", sig_inj), format!("term() took {:?} (its internal wait times out after 10 s); live actors right after: {} ({})", total, la_after, cfg), json!({"config": cfg, "live_actors": la_after, "still_running_workers": running.lock().iter().map(|(k, v)| format!("{} {}", k, v.0)).collect::<Vec<_>>()}));
   }
   // ---- post-conditions ----
   // (1) operations on closed sockets return promptly: no single call may stay in flight
-  tokio::time::sleep(Duration::from_millis(2500)).await;
+  tokio::time::sleep(util::scaled(Duration::from_millis(2500))).await;
   {
     let now = Instant::now();
-    let hanging: Vec<String> = running.lock().iter().filter(|(_, (_, t))| now.duration_since(*t) > Duration::from_secs(2)).map(|(k, (v, _))| format!("{} {}", k.split('#').next().unwrap_or(""), v)).collect();
+    let hanging: Vec<String> = running.lock().iter().filter(|(_, (_, t))| now.duration_since(*t) > util::scaled(Duration::from_secs(2))).map(|(k, (v, _))| format!("{} {}", k.split('#').next().unwrap_or(""), v)).collect();
     let mut kinds = hanging.clone();
     kinds.sort();
     kinds.dedup();
@@ -310,11 +310,11 @@ async fn history(rep: &mut Report, rng: &mut Rng, plan: &Plan) {
   }
   // direct probes
   for (s, name) in socks.iter().take(4) {
-    let r = tokio::time::timeout(Duration::from_secs(2), s.send(util::msg(b"x".to_vec(), false))).await;
+    let r = tokio::time::timeout(util::scaled(Duration::from_secs(2)), s.send(util::msg(b"x".to_vec(), false))).await;
     if r.is_err() && !matches!(*name, "PULL" | "SUB") {
       rep.violation(format!("send_after_term_hangs|{}", name), format!("send() on a {} of a terminated context did not return within 2 s ({})", name, cfg), json!({"config": cfg}));
     }
-    let r = tokio::time::timeout(Duration::from_secs(2), s.recv()).await;
+    let r = tokio::time::timeout(util::scaled(Duration::from_secs(2)), s.recv()).await;
     if r.is_err() && !matches!(*name, "PUSH" | "PUB" | "PUSH(dead-port)") {
       rep.violation(format!("recv_after_term_hangs|{}", name), format!("recv() on a {} of a terminated context did not return within 2 s ({})", name, cfg), json!({"config": cfg}));
     }
@@ -334,7 +334,7 @@ async fn history(rep: &mut Report, rng: &mut Rng, plan: &Plan) {
   // tasks and fds settle asynchronously: allow a short grace period
   let t2 = Instant::now();
   let (mut tasks1, mut fd1) = (alive_tasks(), util::open_fds());
-  while (tasks1 > tasks0 || fd1 > fd0) && t2.elapsed() < Duration::from_secs(3) {
+  while (tasks1 > tasks0 || fd1 > fd0) && t2.elapsed() < util::scaled(Duration::from_secs(3)) {
     tokio::time::sleep(Duration::from_millis(50)).await;
     tasks1 = alive_tasks();
     fd1 = util::open_fds();
@@ -344,6 +344,121 @@ async fn history(rep: &mut Report, rng: &mut Rng, plan: &Plan) {
   }
   if fd1 > fd0 {
     rep.violation(format!("fds_left_open|{}", sig_inj), format!("{} file descriptor(s) more than before the history are still open 3 s after term() ({})", fd1 - fd0, cfg), json!({"config": cfg, "before": fd0, "after": fd1}));
+  }
+}
+
+/// (rpqclose) ReadyPipeQueue::close() must release every pop(): one already parked, one started afterwards, one
+/// that is cancelled and retried - also while sender handles of registered pipes are still alive (a connection that
+/// attached while the socket was stopping leaves such a handle behind).
+fn rpq_close_layer(rep: &mut Report, rng: &mut Rng) {
+  use rzmq::verif::{PipeKind, Rpq};
+  let rt = util::runtime(2);
+  for case in 0..60u32 {
+    let poppers = 1 + (case % 3) as usize;
+    let live_senders = (case / 3 % 3) as usize;
+    let kind = [PipeKind::DirectAnonymous, PipeKind::FilteredAnonymous, PipeKind::DirectAddressed][(case / 9 % 3) as usize];
+    let close_first = case % 2 == 1;
+    let delay_us = rng.range(0, 3000) as u64;
+    let (released, late_ok) = rt.block_on(async move {
+      let q = std::sync::Arc::new(Rpq::<rzmq::FrameBatch>::new(8));
+      let keep: Vec<_> = (0..live_senders).map(|i| q.register_pipe_kind(i, 2, 1, kind, &[b""])).collect();
+      if close_first {
+        q.close();
+      }
+      let mut hs = vec![];
+      for _ in 0..poppers {
+        let q2 = q.clone();
+        hs.push(tokio::spawn(async move { q2.pop().await.is_err() }));
+      }
+      tokio::time::sleep(Duration::from_micros(delay_us)).await;
+      if !close_first {
+        q.close();
+      }
+      // one shared deadline: every parked pop() must have returned 1.5 s after close()
+      let deadline = tokio::time::Instant::now() + util::scaled(Duration::from_millis(1500));
+      let mut released = 0;
+      for mut h in hs {
+        if let Ok(Ok(true)) = tokio::time::timeout_at(deadline, &mut h).await {
+          released += 1;
+        } else {
+          h.abort();
+        }
+      }
+      let q3 = q.clone();
+      let late_ok = matches!(tokio::time::timeout(util::scaled(Duration::from_millis(1500)), async move { q3.pop().await.is_err() }).await, Ok(true));
+      drop(keep);
+      (released, late_ok)
+    });
+    rep.case(&("rpqclose", poppers, live_senders, format!("{:?}", kind), close_first, delay_us / 500), true);
+    if released != poppers || !late_ok {
+      rep.violation(
+        format!("pop_not_released_by_close|live_senders={}", if live_senders > 0 { "some" } else { "none" }),
+        format!("ReadyPipeQueue::close(): {} of {} parked pop() calls returned, a pop() started after close() returned: {} ({} sender handle(s) of registered pipes alive, kind {:?}, close_first={})", released, poppers, late_ok, live_senders, kind, close_first),
+        json!({"poppers": poppers, "live_senders": live_senders}),
+      );
+    }
+  }
+}
+
+/// (attachrace) recv() blocked with no timeout while a connection is attaching and close()/term() run: the call
+/// must return (an error) once both have returned. The delay between connect() and close sweeps the attach window.
+async fn attach_race_case(rep: &mut Report, rx_t: SocketType, tx_t: SocketType, tr: Transport, delay_us: u64, use_close: bool) {
+  let ctx = util::new_ctx();
+  let txs = ctx.socket(tx_t).unwrap();
+  let ep = match util::bind_fresh(&txs, tr).await {
+    Ok(e) => e,
+    Err(e) => {
+      rep.inconclusive(format!("bind: {e}"));
+      return;
+    }
+  };
+  let rx = ctx.socket(rx_t).unwrap();
+  if rx_t == SocketType::Sub {
+    let _ = rx.set_option(opt::SUBSCRIBE, "").await;
+  }
+  let mut hs = vec![];
+  for multipart in [false, true] {
+    let r2 = rx.clone();
+    hs.push(tokio::spawn(async move {
+      loop {
+        let e = if multipart { r2.recv_multipart().await.is_err() } else { r2.recv().await.is_err() };
+        if e {
+          return;
+        }
+      }
+    }));
+  }
+  let _ = rx.connect(&ep).await;
+  tokio::time::sleep(Duration::from_micros(delay_us)).await;
+  let closer = if use_close {
+    let r3 = rx.clone();
+    Some(tokio::spawn(async move {
+      let _ = r3.close().await;
+    }))
+  } else {
+    None
+  };
+  let termed = tokio::time::timeout(util::scaled(Duration::from_secs(20)), ctx.term()).await.is_ok();
+  if let Some(c) = closer {
+    let _ = tokio::time::timeout(util::scaled(Duration::from_secs(20)), c).await;
+  }
+  rep.case(&("attachrace", util::socket_type_name(rx_t), tr, delay_us / 250, use_close), true);
+  if !termed {
+    rep.violation(format!("term_hangs|attachrace|{}", util::socket_type_name(rx_t)), format!("term() did not return within the bound while a {} connection was attaching", util::socket_type_name(rx_t)), json!({"delay_us": delay_us}));
+    return;
+  }
+  let mut pending = 0;
+  for h in hs {
+    if tokio::time::timeout(util::scaled(Duration::from_secs(5)), h).await.is_err() {
+      pending += 1;
+    }
+  }
+  if pending > 0 {
+    rep.violation(
+      format!("operation_on_closed_socket_hangs|{} in recv()|attachrace", util::socket_type_name(rx_t)),
+      format!("{} recv call(s) on a {} were still pending after close()/term() returned (connection attaching {} us before the close, {} live actors)", pending, util::socket_type_name(rx_t), delay_us, verif::live_actors(&ctx)),
+      json!({"delay_us": delay_us, "transport": tr.name(), "use_close": use_close}),
+    );
   }
 }
 
@@ -376,6 +491,38 @@ fn main() {
   util::install_panic_watch();
   let mut rep = Report::new("C16", &args.shard_name());
   let mut rng = Rng::new(args.seed.wrapping_mul(295075147).wrapping_add(args.shard as u64));
+  if args.only.as_deref() == Some("rpqclose") {
+    rpq_close_layer(&mut rep, &mut rng);
+    rep.merge_hooks();
+    rep.emit();
+    return;
+  }
+  if args.only.as_deref() == Some("attachrace") {
+    let rt = util::runtime(4);
+    let pairs = [(SocketType::Sub, SocketType::Pub), (SocketType::Pull, SocketType::Push), (SocketType::Dealer, SocketType::Router), (SocketType::Router, SocketType::Dealer), (SocketType::Rep, SocketType::Req)];
+    let n = args.get_usize("cases", if args.thorough() { 400 } else { 80 });
+    for i in 0..n {
+      if !args.mine(i) {
+        continue;
+      }
+      let (rx_t, tx_t) = pairs[i % pairs.len()];
+      let tr = if (i / pairs.len()) % 2 == 0 { Transport::Tcp } else { Transport::Ipc };
+      let delay = rng.range(0, 4000) as u64;
+      let use_close = rng.chance(2, 3);
+      if !util::guarded(&rt, attach_race_case(&mut rep, rx_t, tx_t, tr, delay, use_close)) {
+        rep.inconclusive("attachrace case aborted by a harness panic".to_string());
+      }
+    }
+    for p in util::take_panics() {
+      if p.in_rzmq {
+        rep.violation(format!("panic|{}", util::panic_site(&p.location)), format!("panic at {}: {}", p.location, p.message), json!({"frames": p.backtrace_head}));
+      }
+    }
+    util::cleanup_ipc_dir();
+    rep.merge_hooks();
+    rep.emit();
+    return;
+  }
   let rt = util::runtime(4);
   // warm the runtime so that baselines are stable
   rt.block_on(async {
